@@ -5,7 +5,7 @@ Local Open Scope nat_scope.
 
 Theorem C02_generated_facts :
   parse_uses_private_lexer = true /\ tracebacks_released = true /\ debug_only_prints = true /\
-  no_module_level_state = true /\ bindings_per_instance = true.
+  no_module_level_state = true /\ bindings_per_instance = true /\ no_parameter_mutation = true.
 Proof. vm_compute. repeat split; reflexivity. Qed.
 
 (* histories of registrations and evaluations on one parser: every evaluation returns what a fresh parser with the
